@@ -21,6 +21,7 @@ from common import fbits, unfbits, q
 NAMES = ["x", "y", "z", "t", "s", "D", "k", "r"]
 DEN = 64
 RTOL = 1e-9
+HISTORY_EVERY = 2
 
 
 # ------------------------------------------------------------------------------------------------
@@ -653,6 +654,8 @@ def run_case(case):
             pts, _ = mk_points(tp, torch, own, dims, coords, n)
             if not wild:
                 structure(tp, torch, cr, model, spec, pts, desc, case, slack)
+        if case["idx"] % HISTORY_EVERY == 0 or case.get("force_history"):
+            history(tp, torch, cr, model, spec, case)
     return cr
 
 
@@ -739,6 +742,79 @@ def structure(tp, torch, cr, model, spec, pts, desc, case, slack=None):
         elif expect_space != whole.space:
             cr.fails.append(("Parallel: output space is not the product of the parts' output spaces in order",
                              dict(desc, parallel_space=whole.space, parts=expect_space)))
+
+
+def walk(obj, spec, path=()):
+    yield obj, spec, path
+    if spec["arch"] in ("seq", "par"):
+        for i, (o, sp) in enumerate(zip(list(obj.models), spec["parts"])):
+            yield from walk(o, sp, path + (i,))
+
+
+def history(tp, torch, cr, model, spec, case):
+    """Model objects stay in use after they have been composed: every sub-model OBJECT of the tree (and the tree itself) is
+    called directly, several times in a row with different variable orders, first as it is (already part of a
+    composition), then again after it has additionally been wrapped into a new Parallel and a new Sequential.  Reference =
+    a stand-alone twin (same class, same hyper-parameters, same weights via state_dict) that was never composed.
+    Oracles: every accepted presentation of the same named data gives the twin's answer; inputs lacking a variable are
+    rejected; the wrappers answer like the object itself."""
+    rng = random.Random(f"hist:{case['seed']}")
+    desc = dict(model=case["spec"], torch_seed=case["seed"])
+    subs = list(walk(model, spec))
+    if len(subs) > 4:
+        subs = [subs[0]] + rng.sample(subs[1:], 3)
+    for obj, sp, path in subs:
+        inS = declared_in(obj)
+        names = [v for v, _ in inS]
+        dims = dict(inS)
+        n = rng.choice([1, 2, 3])
+        coords = {v: [[rng.randint(-160, 160) for _ in range(d)] for _ in range(n)] for v, d in inS}
+        try:
+            twin = build(tp, torch, sp).double()
+            twin.load_state_dict(obj.state_dict())
+            twin.eval()
+        except Exception:   # noqa: (a construction the library refuses is the business of the construction stream)
+            continue
+        own, _ = mk_points(tp, torch, names, dims, coords, n)
+        ref = call(torch, twin, own)
+        if not ref.ok or not finite(ref) or magnitude(torch, twin, own) > WILD:
+            cr.counts.append("history:skipped")
+            continue
+        slack = sensitivity(torch, twin, own, ref)
+        p1, p2 = names[:], names[:]
+        rng.shuffle(p1)
+        rng.shuffle(p2)
+        orders = [names, p1, names, p2, p1]
+        drop = rng.choice(names)
+        where = dict(desc, sub_model=sp, path=list(path), data={v: [[f"{c}/{DEN}" for c in r] for r in rows] for v, rows in coords.items()})
+        for stage in ("after composing", "after wrapping it again into Parallel(m) and Sequential(m)"):
+            if stage != "after composing":
+                try:
+                    w1, w2 = tp.models.Parallel(obj).double(), tp.models.Sequential(obj).double()
+                except Exception as e:   # noqa
+                    cr.fails.append((f"an existing model object cannot be wrapped: {type(e).__name__}", where))
+                    break
+                for wn, w, order in (("Parallel(m)", w1, p1), ("Sequential(m)", w2, p2)):
+                    o = call(torch, w, mk_points(tp, torch, order, dims, coords, n)[0])
+                    if not same_out(ref, o, slack=slack):
+                        cr.fails.append((f"{wn} answers differently than the model m it wraps",
+                                         dict(where, order=order, wrapper=o.brief(), stand_alone_twin=ref.brief())))
+            for k, order in enumerate(orders):
+                o = call(torch, obj, mk_points(tp, torch, order, dims, coords, n)[0])
+                cr.counts.append("history:call")
+                if not same_out(ref, o, slack=slack):
+                    cr.fails.append((f"a model object called directly {stage} (call {k + 1} in a row, variables presented as {order}) "
+                                     f"answers differently than the same model that was never composed",
+                                     dict(where, order=order, declared=inS, composed_object=o.brief(), stand_alone_twin=ref.brief())))
+                    break
+            bad = [("renamed", ["q" + v if v == drop else v for v in names], {**dims, "q" + drop: dims[drop]}, {**coords, "q" + drop: coords[drop]})]
+            if len(names) > 1:
+                bad.append(("missing", [v for v in names if v != drop], dims, coords))
+            for what, order, d2, c2 in bad:
+                o = call(torch, obj, mk_points(tp, torch, order, d2, c2, n)[0])
+                if o.ok:
+                    cr.fails.append((f"a model object called directly {stage} accepts an input without its variable '{drop}' ({what})",
+                                     dict(where, presented_variables=order, declared=inS, output=o.brief())))
 
 
 def skeleton(spec):
